@@ -257,29 +257,3 @@ func TestVerifC20PerNLRI(t *testing.T) {
 	rec := kit.NewRecorder(t, "C20", c20Rule)
 	rapid.Check(t, func(t *rapid.T) { c20RunCase(t, rec) })
 }
-
-// TestVerifC20WitnessV4MappedNLRI: an IPv6 NLRI inside ::ffff:0:0/96 must be
-// stored as the IPv6 prefix that was announced.
-func TestVerifC20WitnessV4MappedNLRI(t *testing.T) {
-	s := c19Sess{IBGP: true, V6: true}
-	rig := c19NewRig(s)
-	p := kit.V6(0, 0x0000ffff01020300, 120) // ::ffff:1.2.3.0/120
-	nh := make([]byte, 16)
-	nh[0], nh[1], nh[15] = 0x20, 0x01, 1
-	m := &c19Msg{Reach: &kit.WMP{AFI: 2, SAFI: 1, NextHop: nh, NLRI: []kit.WNLRI{{P: p}}}}
-	b := m.build(s)
-	pv, st, why := rig.feed(b, 1)
-	if pv != nil {
-		t.Fatalf("UPDATE announcing ::ffff:1.2.3.0/120 panicked: %v", pv)
-	}
-	if st != stateNameEstablished {
-		t.Fatalf("UPDATE announcing ::ffff:1.2.3.0/120 rejected: %s %q", st, why)
-	}
-	var got []string
-	for _, e := range c19Dump(rig.in6) {
-		got = append(got, e.Pfx)
-	}
-	if len(got) != 1 || got[0] != c20PfxKey(p) {
-		t.Fatalf("announced IPv6 prefix %s (%s), IPv6 Adj-RIB-In holds %v", p, c20PfxKey(p), got)
-	}
-}
